@@ -102,6 +102,7 @@ func (a jsonList) diffRest(
 	strategy patchStrategy,
 ) Diff {
 	var aCursor, bCursor, commonSequenceCursor int
+	var afterRecorded, keptElementOfA bool
 	pathCursor := pathIndex
 	pathNow := func() Path {
 		return append(path.clone().drop(), pathCursor)
@@ -205,10 +206,14 @@ accumulatingDiff:
 			subDiff := a[aCursor].diff(b[bCursor], pathNow(), options, strategy)
 			if haveDiff() {
 				d[0].After = after()
+				afterRecorded = true
 				d = append(d, subDiff...)
 			} else {
 				d = subDiff
 			}
+			// An empty sub-diff (containers equal under the
+			// options) keeps the element of A in the result.
+			keptElementOfA = len(subDiff) == 0
 			aCursor++
 			bCursor++
 			pathCursor++
@@ -235,7 +240,7 @@ accumulatingDiff:
 		} else {
 			// Record context of accumulated diff. If we appended
 			// a sub-diff then it already has context.
-			if len(d) < 2 {
+			if len(d) < 2 && !afterRecorded {
 				d[0].After = after()
 			}
 		}
@@ -244,12 +249,16 @@ accumulatingDiff:
 		return d
 	}
 	// Cursors point to the next elements.
+	previousInResult := b[bCursor-1]
+	if keptElementOfA {
+		previousInResult = a[aCursor-1]
+	}
 	return append(d, a[aCursor:].diffRest(
 		pathCursor,
 		b[bCursor:],
 		pathNow(),
 		aHashes[aCursor:], bHashes[bCursor:], commonSequence[commonSequenceCursor:],
-		b[bCursor-1],
+		previousInResult,
 		options,
 		strategy,
 	)...)
